@@ -368,6 +368,8 @@ func (e dispatcherCompleteEvent) apply(s *state) {
 	for _, errc := range ctrl.errors {
 		errc <- nil
 	}
+	// Every waiting request has been answered exactly once.
+	ctrl.errors = nil
 	if ctrl.localRequest {
 		downloadTime := s.sched.clock.Now().Sub(ctrl.dispatcher.CreatedAt())
 		observability.EmitDownloadPerformance(s.sched.stats, observability.TORRENT_LEECH, ctrl.dispatcher.Length(), downloadTime)
@@ -465,6 +467,14 @@ func (e removeTorrentEvent) apply(s *state) {
 			s.log(
 				"hash", h,
 				"inprogress", !ctrl.dispatcher.Complete()).Info("Removing torrent")
+			if ctrl.dispatcher.Complete() {
+				// Requests still waiting for the completion event of this torrent
+				// must not be told the blob is available: it is deleted below.
+				for _, errc := range ctrl.errors {
+					errc <- ErrTorrentRemoved
+				}
+				ctrl.errors = nil
+			}
 			s.removeTorrent(h, ErrTorrentRemoved)
 		}
 	}
